@@ -1,6 +1,22 @@
-import OrsoVerif.Model.Iso
+import OrsoVerif.Model.IsoPrim
 /-! Helper lemmas for C08: digit characters, `int()` on digit text. -/
 namespace Iso
+
+@[simp] theorem bind_ok {α β : Type} (a : α) (f : α → Except Exc β) : (Except.ok a).bind f = f a := rfl
+@[simp] theorem bind_error {α β : Type} (e : Exc) (f : α → Except Exc β) :
+    (Except.error e : Except Exc α).bind f = .error e := rfl
+
+theorem valid_bounds {dt : DateTime} (h : validDateTime dt = true) :
+    1 ≤ dt.year ∧ dt.year ≤ 9999 ∧ 1 ≤ dt.month ∧ dt.month ≤ 12 ∧ 1 ≤ dt.day ∧
+    dt.day ≤ daysInMonth dt.year dt.month ∧ dt.hour ≤ 23 ∧ dt.minute ≤ 59 ∧ dt.second ≤ 59 ∧
+    dt.micro ≤ 999999 := by
+  simp only [validDateTime, validDate, Bool.and_eq_true, decide_eq_true_eq] at h
+  omega
+
+theorem daysInMonth_le (y m : Nat) : daysInMonth y m ≤ 31 := by
+  unfold daysInMonth daysInMonthL
+  split <;> try omega
+  split <;> omega
 
 theorem ne_of_isDigit {c d : Char} (h : c.isDigit = true) (hd : d.isDigit = false) : c ≠ d := by
   intro e; subst e; rw [h] at hd; cases hd
